@@ -375,7 +375,14 @@ def _limits_poll(ctx, p):
            % (n_skip, sorted(dec), '' if bad is None and not others else ' — ' + (bad or 'the counter is also written by ' + ', '.join(others))),
            site=f.loc())
     # (b) the budget tests
-    conds = [kids(st)[0] for st in suffix if st['k'] == 'IfStmt']
+    def leaves(c_):
+        c0 = nm.resolve(c_)
+        if c0['k'] == 'BinaryOperator' and c0.get('op') in ('&&', '||'):
+            return leaves(kids(c0)[0]) + leaves(kids(c0)[1])
+        if c0['k'] == 'UnaryOperator' and c0.get('op') == '!':
+            return leaves(kids(c0)[0])
+        return [c0]
+    conds = [l_ for st in suffix if st['k'] == 'IfStmt' for l_ in leaves(kids(st)[0])]
     rel = {}
     for c_ in conds:
         try:
